@@ -133,6 +133,11 @@ class GhostRewriter(ast.NodeTransformer):
             call = ast.Call(func=lam, args=[ast.Starred(value=ast.Name(id="__snap__", ctx=ast.Load()), ctx=ast.Load())], keywords=[])
             return ast.copy_location(call, node)
         self.generic_visit(node)
+        # logic connectives are total in SMT; natively they must be lazy
+        if isinstance(node.func, ast.Name) and node.func.id == "implies" and len(node.args) == 2:
+            return ast.copy_location(ast.BoolOp(op=ast.Or(), values=[ast.UnaryOp(op=ast.Not(), operand=node.args[0]), node.args[1]]), node)
+        if isinstance(node.func, ast.Name) and node.func.id == "ite" and len(node.args) == 3:
+            return ast.copy_location(ast.IfExp(test=node.args[0], body=node.args[1], orelse=node.args[2]), node)
         return node
 
 
